@@ -125,6 +125,11 @@ def CTables.ignoredIn (C : CTables) (t : Tree) : List (Nat × Nat) :=
   | .ok (_, _, acc) => acc
   | .error _ => []
 
+/-- `Represented`: a decidable predicate on trees — the listener walk meets no silently ignored (visitor, rule) pair and no
+rule that is rejected as unsupported: every content-bearing rule node is dispatched to a non-empty method of the active
+visitor (or to a stub on the benign list) -/
+def CTables.represented (C : CTables) (t : Tree) : Bool := (C.ignoredIn t).isEmpty && !(t.rules.any C.baseErr)
+
 /-- classification of a RULE over the active pairs: unsupported (error on entry), represented (some active visitor has a
 method), ignored (stub in every active visitor), unreachable -/
 def CTables.ruleClass (C : CTables) (active : List (Nat × Nat)) (r : Nat) : String :=
